@@ -336,3 +336,138 @@ Proof.
   - intros n. apply (C18_lfo_periodic square P C); [lia|reflexivity].
   - vm_compute. reflexivity.
 Qed.
+
+(** * LFO re-configured after construction (FIX-C18): lfo.min / lfo.max / lfo.frequency assigned, LFO.update,
+   Timeline.lfo(params, name=<existing>), LFO.reset, at any point between ticks *)
+Section SineReconfig.
+  Variable sin2pi : Q -> Q.
+  Hypothesis sin_range : forall x, -1 <= sin2pi x <= 1.
+  Hypothesis sin_period : forall x, sin2pi (x + 1) == sin2pi x.
+  Hypothesis sin_proper : forall x y, x == y -> sin2pi x == sin2pi y.
+
+  (* after ANY history of ticks, re-configurations and resets that ends in a tick the value lies within the
+     bounds the LFO has NOW; in trace form: every tick of a history yields a value within the bounds in force
+     at that tick *)
+  Theorem C18_lfo_reconfig_range : forall tpb ops l,
+    (let l' := lfo_run sin2pi tpb (ops ++ [LTick]) l in
+     l_min l' <= l_max l' -> l_min l' <= lfo_value l' <= l_max l')
+    /\ (forall b v lo hi, In (b, v, (lo, hi)) (lfo_script_trace sin2pi tpb ops l) ->
+        b = true -> lo <= hi -> lo <= v <= hi).
+  Proof.
+    intros. split; [apply lfo_range_after_history; assumption|].
+    intros b v lo hi HI. exact (proj1 (Forall_forall _ _) (lfo_script_range sin2pi sin_range tpb ops l) _ HI).
+  Qed.
+
+  (* the configuration in force is the one assigned last: an update sets exactly the fields it names (a dict
+     names each once) and moves neither the value nor the phase clock *)
+  Theorem C18_lfo_reconfig_config : forall ps l k x,
+    l_value (lfo_update ps l) = l_value l /\ l_time (lfo_update ps l) = l_time l
+    /\ (lookup_key k ps = None -> lfo_get k (lfo_update ps l) = lfo_get k l)
+    /\ (NoDup (map fst ps) -> lookup_key k ps = Some x -> lfo_get k (lfo_update ps l) = x).
+  Proof.
+    intros. destruct (update_keeps ps l) as [A B]. repeat split; try assumption.
+    - apply update_get_notin.
+    - apply update_get_in.
+  Qed.
+
+  (* after any history, the ticks that follow trace the waveform of the CURRENT frequency and bounds on the
+     running clock (which re-configuration did not move), so the value repeats with the period of the current
+     frequency; and PLFO reads exactly that value *)
+  Theorem C18_lfo_reconfig_periodic : forall tpb ops l0 (p n : nat),
+    let l := lfo_run sin2pi tpb ops l0 in
+    l_value (lfo_ticks sin2pi tpb (S n) l)
+      == lfo_wave sin2pi (l_freq l) (l_min l) (l_max l) (l_time l + qnat (S n) * (1 / inject_Z tpb))
+    /\ ((0 < tpb)%Z -> qnat p * l_freq l == inject_Z tpb ->
+        lfo_value (lfo_ticks sin2pi tpb (S n + p) l) == lfo_value (lfo_ticks sin2pi tpb (S n) l))
+    /\ (forallb (fun o => negb (is_lreset o)) ops = true ->
+        l_time l == l_time l0 + qnat (List.length (filter is_ltick ops)) * (1 / inject_Z tpb))
+    /\ lfo_run sin2pi tpb (ops ++ repeat LTick n) l0 = lfo_ticks sin2pi tpb n l
+    /\ plfo_next l = (lfo_value l, l).
+  Proof.
+    intros. repeat split.
+    - apply lfo_value_after; assumption.
+    - intros. apply lfo_periodic_from; assumption.
+    - apply lfo_run_time.
+    - unfold l. rewrite lfo_run_app. apply lfo_run_ticks.
+  Qed.
+End SineReconfig.
+
+(* Timeline.lfo(params, name=n) with an LFO of that name present: that LFO is updated in place and returned,
+   no LFO is added or removed, the others are untouched *)
+Theorem C18_timeline_lfo_in_place : forall name ps ls i,
+  tl_find name ls 0 = Some i ->
+  tl_lfo (Some name) ps ls = Some (tl_update_at i ps ls, i)
+  /\ List.length (tl_update_at i ps ls) = List.length ls
+  /\ (forall j, j <> i -> nth_error (tl_update_at i ps ls) j = nth_error ls j)
+  /\ exists l, nth_error ls i = Some (Some name, l)
+               /\ nth_error (tl_update_at i ps ls) i = Some (Some name, lfo_update ps l).
+Proof.
+  intros name ps ls i H. unfold tl_lfo. rewrite H. repeat split.
+  - apply tl_update_at_length.
+  - intros. apply tl_update_at_other; assumption.
+  - destruct (tl_find_named _ _ _ _ H) as [_ [l Hl]]. rewrite Nat.sub_0_r in Hl. exists l. split; [exact Hl|].
+    apply tl_update_at_same. exact Hl.
+Qed.
+Print Assumptions C18_lfo_reconfig_range.
+Print Assumptions C18_lfo_reconfig_config.
+Print Assumptions C18_lfo_reconfig_periodic.
+Print Assumptions C18_timeline_lfo_in_place.
+
+(* a square-wave LFO 2..5 at frequency 2, 24 ticks per beat: 3 ticks, range re-assigned to 60..72 (the value read
+   before the next tick is still the old one), 4 ticks, frequency 2 -> 4 and range narrowed to 64..65, 4 ticks *)
+Example C18_lfo_reconfig_nonvacuous :
+  let ops := [LTick; LTick; LTick; LUpdate [(KMin, 60); (KMax, 72)]; LTick; LTick; LTick; LTick;
+              LUpdate [(KFreq, 4); (KMax, 65); (KMin, 64)]; LTick; LTick; LTick; LTick] in
+  map (fun e => Qred (snd (fst e))) (lfo_script_trace square 24 ops (new_lfo 2 2 5))
+    = [5; 5; 5; 5; 72; 72; 72; 60; 60; 65; 65; 64; 64]
+  /\ (forall b v lo hi, In (b, v, (lo, hi)) (lfo_script_trace square 24 ops (new_lfo 2 2 5)) ->
+      b = true -> lo <= hi -> lo <= v <= hi)
+  /\ tl_lfo (Some 7%Z) [(KMax, 9)] [(None, new_lfo 1 0 1); (Some 7%Z, new_lfo 2 2 5)]
+     = Some ([(None, new_lfo 1 0 1); (Some 7%Z, mkLfo 2 2 9 0 (scale_lin_lin 0 (-1) 1 2 5))], 1%nat).
+Proof.
+  destruct square_facts as [R [P C]]. split; [|split].
+  - vm_compute. reflexivity.
+  - intros b v lo hi. apply (C18_lfo_reconfig_range square R).
+  - vm_compute. reflexivity.
+Qed.
+
+(** * Automation re-configured after construction (FIX-C18): range / boundaries / default_duration re-assigned,
+   also while moves are running *)
+(* the assignment calls nobody and leaves current_value, the moves under way and the bindings alone; the moves
+   then run exactly as they would have (same current_value after every number of ticks, hence the same arrival
+   tick and target), and what is reported after n ticks is that current_value clipped / wrapped into the range
+   NOW in force — inside [lo, hi] (clip) or [lo, hi) (wrap) by C18_range, which holds in any state.  The states so
+   reached are API-reachable, so C18_arrival_move_by covers moves made on a re-configured automation. *)
+Theorem C18_reconfig_auto : forall tpb n a r b d,
+  let a' := set_default (set_bound (set_range a r) b) d in
+  step tpb a (OSetRange r) = Some (set_range a r, [])
+  /\ step tpb a (OSetBound b) = Some (set_bound a b, [])
+  /\ step tpb a (OSetDefault d) = Some (set_default a d, [])
+  /\ a_cv (run_ticks n a') = a_cv (run_ticks n a)
+  /\ a_mods (run_ticks n a') = a_mods (run_ticks n a)
+  /\ a_binds (run_ticks n a') = a_binds a
+  /\ value (run_ticks n a') = report r b (a_cv (run_ticks n a))
+  /\ (reachable tpb a -> reachable tpb a').
+Proof.
+  intros tpb n a r b d. cbv zeta. destruct (reconfig_value n a r b d) as [A [B [C D]]]. cbv zeta in *.
+  repeat split; try assumption. intros R.
+  eapply reach_step; [eapply reach_step; [eapply reach_step; [exact R|]|]|];
+    [exact (eq_refl : step tpb a (OSetRange r) = _)
+    |exact (eq_refl : step tpb (set_range a r) (OSetBound b) = _)
+    |exact (eq_refl : step tpb (set_bound (set_range a r) b) (OSetDefault d) = _)].
+Qed.
+Print Assumptions C18_reconfig_auto.
+
+(* a move from 2 to 8 over 4 ticks under clip 0..10; after 2 ticks the range becomes 0..4 under wrap:
+   current_value goes 5, 6.5, 8 as it would have; reported: 5 -> 1 at the assignment, then 2.5, 0 *)
+Example C18_reconfig_auto_nonvacuous :
+  let a0 := new_automation (Some (0, 10)) Clip (Some 2) 0 in
+  match move_to 24 a0 8 (Some (4 # 24)) 0 with
+  | Some a1 =>
+      let a2 := run_ticks 2 a1 in
+      let a3 := set_bound (set_range a2 (Some (0, 4))) Wrap in
+      (Qred (value a2), Qred (value a3), Qred (value (run_ticks 1 a3)), Qred (value (run_ticks 2 a3)),
+       Qred (a_cv (run_ticks 2 a3)))
+  | None => (0, 0, 0, 0, 0)
+  end = (5, 1, 5 # 2, 0, 8).
+Proof. vm_compute. reflexivity. Qed.
